@@ -644,7 +644,7 @@ def c03_jobs(tier):
 
 
 def c04_jobs(tier):
-    return step_jobs(tier, ["AUTH"], "iso", only=r"^(V|L|l|S|O|N|I|R|P|p|data[01])", fwd_quick=True) + \
+    return step_jobs(tier, ["AUTH"], "iso", only=r"^(V|L|l|S|O|N|I|P|p|data[01])" if tier == "quick" else r"^(V|L|l|S|O|N|I|R|P|p|data[01])", fwd_quick=True) + \
         tun_jobs(tier, ["AUTH"], "iso") + [j for j in raw_jobs(tier, ["AUTH"], "iso") if re.search(r"raw-(login|data)-u[01]", j.name)]
 
 
